@@ -126,7 +126,7 @@ func checkLineCounter(c *Ctx, p *core.Prog, rule string) {
 	c.R.Check(maxInc <= 1, rule, "tokenizeStream: the line counter advances at most once per consumed rune", p.Pos(linePhi.Pos()),
 		fmt.Sprintf("%d increment sites; no path through one iteration passes two of them", len(incs)),
 		fmt.Sprintf("a path through one iteration of the rune loop increments the line counter %d times: one rune can end at most one line, so line numbers overrun the input", maxInc))
-	c.R.RequireMin(rule, "line increment sites", len(incs), 2)
+	c.R.RequireMin(rule, "line increment sites", len(incs), 1)
 
 	// (b) classify increments
 	pd := core.NewPostDom(fn)
